@@ -34,6 +34,9 @@ func runC20(c *an.Ctx) {
 	r20j(c)
 	r20k(c)
 	r20l(c)
+	// round 9
+	r20m(c)
+	r20n(c)
 }
 
 const cfgPkg = "configuration/componentcfg"
